@@ -23,14 +23,14 @@ mkdir -p "$BIN"
 if [ "${1:-}" = replay ] && [ -n "${2:-}" ]; then REPLAY_FILE="$(realpath "$2")"; fi
 cd "$ROOT/harness" || exit 2
 [ "$REPO" = /repo ] && cp /repo/ociregistry/go.sum go.sum 2>/dev/null
-SCHED_IDS=" C16 C08 C19 C10 C11 C14 "
+SCHED_IDS=" C16 C08 C19 C10 C11 C14 C12 "
 build() {
   go build $MODFLAG -tags verif -o "$BIN/vcheck" ./cmd/vcheck || { echo "harness build failed" >&2; exit 2; }
 }
 # instrumented build: overlay regenerated from /repo's current sources on every run
 build_sched() {
   go build $MODFLAG -o "$BIN/vrewrite" ./cmd/vrewrite || { echo "vrewrite build failed" >&2; exit 2; }
-  "$BIN/vrewrite" -repo "$REPO/ociregistry" -out "$OVERLAY" ocimem ociunify ociauth ociclient > "$OVERLAY.log" || { cat "$OVERLAY.log" >&2; exit 2; }
+  "$BIN/vrewrite" -repo "$REPO/ociregistry" -out "$OVERLAY" ocimem ociunify ociauth ociclient ocifilter > "$OVERLAY.log" || { cat "$OVERLAY.log" >&2; exit 2; }
   go build $MODFLAG -tags verif -overlay "$OVERLAY/overlay.json" -o "$BIN/vcheck-sched" ./cmd/vcheck || { echo "instrumented build failed" >&2; exit 2; }
 }
 build_race() {
